@@ -63,7 +63,7 @@ Proof.
       replace (Nat.ltb n (p + S (length cs))) with true by (symmetry; apply Nat.ltb_lt; lia). reflexivity.
 Qed.
 
-Theorem lowers_order : forall o, plain hb K o -> forall r, lowers ci fl o r ->
+Theorem lowers_order : forall o, plain hb K o -> forall r, lowers input ci fl o r ->
   forall p e, p <= n -> map fst (R r p e) = Rop o p.
 Proof.
   induction o using op_ind2; intros Hpl r Hl p e Hp; rewrite <- (R_unnc r); cbn [lowers plain] in Hl, Hpl;
@@ -96,7 +96,7 @@ Proof.
       intros je _. reflexivity.
   - (* Cls *)
     destruct Hl as (pr & Hpr & Hmem). rewrite (leaf_R _ _ _ _ Hpr). unfold one_charR, char_at.
-    destruct (nth_error input p) as [c|]; [|reflexivity]. rewrite Hmem. destruct (pr c); reflexivity.
+    destruct (nth_error input p) as [c|] eqn:Ec; [|reflexivity]. rewrite (Hmem c (nth_error_In _ _ Ec)). destruct (pr c); reflexivity.
   - (* Capture *)
     destruct Hl as (r' & Hr & Hl). rewrite Hr. destruct Hpl as [Hpl _].
     unfold R; cbn [Sem.R]. rewrite map_map. cbn [fst]. apply IHo; auto.
@@ -162,7 +162,7 @@ Qed.
 Theorem fragment_selected_match prog input fl o r s :
   p_op prog = make_sequence o OEnd ->
   plain (p_hasbackrefs prog) (p_maxparens prog) o ->
-  lowers (p_case prog) fl o r -> s_i fl = p_case prog -> s_m fl = p_multi prog ->
+  lowers input (p_case prog) fl o r -> s_i fl = p_case prog -> s_m fl = p_multi prog ->
   (p_hasbol prog = false /\ p_minlen prog = 0%N /\ p_prefix prog = None /\ p_icc prog = None /\ p_pre prog = []) ->
   length (sb s) = length (eb s) ->
   match matches prog input 0 s with
